@@ -201,7 +201,7 @@ pub fn plan_from_json(j: &J) -> Result<Plan, String> {
         ops.push(Op { k, a: g("a"), b: g("b"), f: g("f") });
     }
     let elem = match j.get("element").and_then(|x| x.as_str()) {
-        Some("Wide16") => 1,
+        Some("Wide16") | Some("Wide256") => 1,
         Some("PlainNoDrop") => 2,
         Some("ZstDrop") => 3,
         _ => 0,
